@@ -9,7 +9,7 @@ import common, lbtool, epollhook
 
 LEVEL = 'proof'
 PROP = 'C10'
-MODULES = ['Netpoll.Props.C10', 'Netpoll.Tie.Poll']
+MODULES = ['Netpoll.Props.C10', 'Netpoll.Tie.Poll', 'Netpoll.Tie.Dial', 'Netpoll.Tie.Life']
 MANIFEST = dict(
     text='Lean 4 invariant proof over an interleaving model of one poller slot through any number of owners: for every sequence of alloc / register / fetch / dispatch / end-of-batch / close steps, stale Release calls, Release calls of the live owner (token taken and given back: C10_token_returned) and '
          'hang-ups recorded in a batch and delivered later by the hang-up goroutine (at any point of any continuation: after the owner closed, after the slot was reused), '
@@ -47,6 +47,8 @@ def analyse(wd, rc=0):
                 seen.add(t[2])
             if t[0] == 'dispatch' and 'ran=none' in i: res['skipped_events'] += 1
             if t[0] == 'stale': res['stale'] += 1
+            if t[0] == 'wclose': res['wclose'] = res.get('wclose', 0) + 1
+            if t[0] == 'dfree': res['dial_frees'] = res.get('dial_frees', 0) + 1
             if t[0] == 'dispatchall' and ':hupq' in o: res['delayed'] = res.get('delayed', 0) + 1
         if len(si) > 1: res['finals'].add(si[-1])
         bad = next((k for k, l in enumerate(si) if l.startswith('panic') or l.startswith('BYSTANDER-FAIL') or l == 'hang'), None)
@@ -96,6 +98,8 @@ def run(rep):
                         '(closes after its epoll_wait returned, opens in front of its handler); every step compared with the Lean model; bystanders must receive exactly what was sent and stay open and registered. distinct_nontrivial = distinct final slot observations')
     rep.cov['real_wait_rounds'] = hist.get('waitround', 0)
     rep.cov['handler_calls_with_delayed_hangups'] = sum(r.get('delayed', 0) for r in results)
+    rep.cov['writes_in_flight_across_close'] = sum(r.get('wclose', 0) for r in results)
+    rep.cov['dial_operators_freed'] = sum(r.get('dial_frees', 0) for r in results)
     rep.assumptions += ['A-epoll-del: no event is fetched for a descriptor after EPOLL_CTL_DEL returned', 'single harness goroutine: steps are atomic at the granularity of the model']
     genuine = [p for p in problems if p[2] == 'impl-violates-spec']
     others = [p for p in problems if p[2] != 'impl-violates-spec']
